@@ -101,6 +101,29 @@ CLAIMS["C06"] = dict(
     design_ref="DESIGN.md section 4, C06",
     technique="static analysis: algebraic normal forms with algebraic/Gram atoms, dominator rules on labelled exits, currentness of loop-carried arguments via reaching definitions, index-space type inference")
 
+CLAIMS["C18"] = dict(
+    category="proof",
+    text=("Proof over the reals by exact normal-form identities: each function (min_base, zmax, smooth_linear, the friction "
+          "potential) is lowered from source to a piecewise rational function; in every cell of its switching arrangement "
+          "(exhaustive finite set of orderings, visited at rational representatives) the active piece satisfies the "
+          "specification identity -- min_base: value == min outside the band and min - value == (|x-y|-eps)^2/(4 eps) inside "
+          "(hence one-sided, tight to eps/4), symmetric; friction: arms mu t^2/(2 sReg) and mu(t - sReg/2), convexity and "
+          "Coulomb-bound certificates -- and C0/C1 agreement holds on every switching surface; max/abs are the mirrored "
+          "wrappers. Rounding within a switch is not modelled (assumes eps > safeTol, sReg > 0, 0 < l < 1/2)."),
+    design_ref="DESIGN.md section 4, C18",
+    technique="static analysis: extraction of piecewise rational functions from the AST, exact rational normal forms, GLUE (C0/C1) identities and certificate identities per cell")
+
+CLAIMS["C15"] = dict(
+    category="proof",
+    text=("Polynomial identities by symbolic execution of the predict/correct closures: with UCorrection = U_{n+1} - U_pred they "
+          "realise U_{n+1} = U + dt V + dt^2[(1/2-beta)A + beta A_{n+1}] and V_{n+1} = V + dt[(1-gamma)A + gamma A_{n+1}] exactly; "
+          "the inertia term of the algorithmic energy is the kinetic density 1/2 rho v.v of (U - U_pred) scaled by the same "
+          "1/(beta dt^2) as the corrector (stationarity = f_int + M A_{n+1}), the element Hessian uses the same factor, and "
+          "the factory feeds the same Newmark parameters everywhere. Energy conservation, exact rigid translation and the mass "
+          "sum are trajectory/numerical statements and are NOT decided."),
+    design_ref="DESIGN.md section 4, C15",
+    technique="static analysis: symbolic execution of straight-line closures into exact rational normal forms; factor/field agreement between sibling functions")
+
 NA = {}
 
 
